@@ -12,7 +12,7 @@ from .interp import Exc, MapLoc
 
 MODULE_NAMES = {"np", "pm", "warnings", "math", "json", "itertools", "functools", "dataclasses",
                 "pulser", "copy", "inspect", "seq_decorators"}
-BUILTIN_FUNCS = {"replace", "map", "slice", "chain", "wraps", "int", "float", "bool", "len", "abs", "max", "min", "sum", "set", "tuple", "list",
+BUILTIN_FUNCS = {"dict", "replace", "map", "slice", "chain", "wraps", "int", "float", "bool", "len", "abs", "max", "min", "sum", "set", "tuple", "list",
                  "dict", "sorted", "any", "all", "round", "isinstance", "hasattr", "getattr", "cast",
                  "range", "enumerate", "zip", "reversed", "str", "type", "repr", "print", "get_args",
                  "super", "object", "frozenset", "iter", "next", "id"}
